@@ -23,8 +23,12 @@ type gwScenario struct {
 }
 
 func genGW(t *rapid.T) gwScenario {
+	return genGWFam(t, rapid.Bool().Draw(t, "v6"))
+}
+
+func genGWFam(t *rapid.T, v6 bool) gwScenario {
 	s := gwScenario{}
-	s.V6 = rapid.Bool().Draw(t, "v6")
+	s.V6 = v6
 	n := 4
 	if s.V6 {
 		n = 16
